@@ -118,6 +118,7 @@ def c20(tier):
     ts.run_c20(P, C)
     ts.ts7(P, C)
     ts.ts8(P, C)
+    ts.ts9(P, C)
     ts.ts3b(P, C)
     nl.nl1(P, C)
     nl.nl2(P, C)
